@@ -38,7 +38,8 @@ impl<C: Suite> MAggX<C> {
         let key_names: Vec<String> = idx.iter().map(|i| ka.names[*i].clone()).collect();
         let sks: Vec<SecretKey<C>> = idx.iter().map(|i| sk_from_be::<C>(&ka.be[*i]).unwrap()).collect();
         let pks = sks.iter().map(|k| k.public_key()).collect();
-        let msgs = vec![vec![0x01, 0xff], vec![0x01, 0xfe], vec![]];
+        // incl. a binary message and the ASCII hex text of the same bytes (equal under a printable rendering)
+        let msgs = vec![vec![0x01, 0xff], vec![0x01, 0xfe], vec![], vec![0xde, 0xad, 0xbe, 0xef, 0x00, 0xff, 0x80, 0x01], b"deadbeef00ff8001".to_vec()];
         let sigs = SCHEMES.iter().map(|s| sks.iter().map(|k| msgs.iter().map(|m| k.sign(lib_scheme(*s), m).expect("honest sign")).collect()).collect()).collect();
         MAggX { prop, maxlen: if tier.thorough() { 4 } else { 3 }, key_names, pks, msgs, sigs, _c: PhantomData }
     }
@@ -292,9 +293,95 @@ impl<C: Suite> Model for MAggLarge<C> {
     }
 }
 
+// ---- every message pattern over short lists of distinct signers (C06, C17) -----------------------------------
+
+#[derive(Clone, Debug, PartialEq, Eq, Hash, Serialize, Deserialize)]
+pub struct PatSt {
+    s: Scheme,
+    /// message letter (0..3) per list position; the signer of position i is key #i
+    pat: Vec<u8>,
+}
+
+pub struct MAggPattern<C: Suite> {
+    prop: &'static str,
+    maxlen: usize,
+    sks: Vec<SecretKey<C>>,
+    _c: PhantomData<C>,
+}
+
+impl<C: Suite> MAggPattern<C> {
+    pub fn new(prop: &'static str, tier: Tier) -> Self {
+        let maxlen = if tier.thorough() { 6 } else { 5 };
+        MAggPattern { prop, maxlen, sks: (0..maxlen).map(|i| SecretKey::<C>::from_hash(format!("aggx-pattern-{}", i))).collect(), _c: PhantomData }
+    }
+}
+
+impl<C: Suite> Model for MAggPattern<C> {
+    type State = PatSt;
+    type Action = u8;
+    fn name(&self) -> String {
+        format!("{}-aggregate-message-patterns/{}", self.prop.to_lowercase(), C::G)
+    }
+    fn init(&self) -> Vec<PatSt> {
+        SCHEMES.iter().map(|s| PatSt { s: *s, pat: vec![] }).collect()
+    }
+    fn actions(&self, st: &PatSt) -> Vec<u8> {
+        if st.pat.len() >= self.maxlen {
+            vec![]
+        } else {
+            // canonical patterns only: a new letter is the smallest unused one (restricted growth strings)
+            let next = st.pat.iter().copied().max().map(|m| m + 1).unwrap_or(0);
+            (0..=next.min(2)).collect()
+        }
+    }
+    fn step(&self, st: &PatSt, a: &u8) -> Option<PatSt> {
+        let mut n = st.clone();
+        n.pat.push(*a);
+        Some(n)
+    }
+    fn describe(&self, st: &PatSt) -> String {
+        format!("{} {} aggregate of {} distinct signers over messages {:?} (equal letters = equal messages)", C::G, st.s.name(), st.pat.len(), st.pat.iter().map(|l| (b'A' + l) as char).collect::<String>())
+    }
+    fn required_outcomes(&self) -> Vec<String> {
+        vec!["pattern:accept".into(), "pattern:reject-basic-duplicate".into()]
+    }
+    fn check(&self, st: &PatSt, o: &mut Obs) {
+        if st.pat.len() < 2 {
+            return;
+        }
+        o.nontrivial = true;
+        let (p, g, sn) = (self.prop, C::G, st.s.name());
+        let msg = |l: u8| format!("pattern message {}", (b'A' + l) as char).into_bytes();
+        let sigs: Vec<Signature<C>> = st.pat.iter().enumerate().map(|(i, l)| self.sks[i].sign(lib_scheme(st.s), &msg(*l)).expect("honest sign")).collect();
+        let list: Vec<(PublicKey<C>, Vec<u8>)> = st.pat.iter().enumerate().map(|(i, l)| (self.sks[i].public_key(), msg(*l))).collect();
+        let dup = (0..st.pat.len()).any(|i| (0..i).any(|j| st.pat[i] == st.pat[j]));
+        let want = !(st.s == Scheme::Basic && dup);
+        let r = guard(|| AggregateSignature::<C>::from_signatures(&sigs).and_then(|a| a.verify(&list)));
+        o.calls(2);
+        let shape = if !dup { "all-distinct" } else if st.pat.iter().all(|l| *l == st.pat[0]) { "all-equal" } else { "mixed-repeats" };
+        o.outcome(if want { "pattern:accept" } else { "pattern:reject-basic-duplicate" });
+        match &r {
+            Err(pn) => o.expect(&format!("{}:aggregate-message-pattern:{}:{}:{}:panic", p, g, sn, shape), false, "returns", pn),
+            // C17 judges only that the call returns
+            Ok(_) if p == "C17" => {}
+            Ok(v) => o.expect(
+                &format!("{}:aggregate-message-pattern:{}:{}:{}", p, g, sn, shape),
+                v.is_ok() == want,
+                if want { "accept (honest aggregate, exact list)" } else { "reject (repeated message in Basic)" },
+                if v.is_ok() { "Ok" } else { "Err" },
+            ),
+        }
+    }
+}
+
 pub fn models(prop: &'static str, tier: Tier, seed: u64) -> Vec<Box<dyn DynModel>> {
     let d = if tier.thorough() { 5 } else { 4 };
-    let mut v = vec![bounded(MAggX::<Bls12381G1Impl>::new(prop, tier, seed), d), bounded(MAggX::<Bls12381G2Impl>::new(prop, tier, seed), d)];
+    let mut v = if prop == "C17" { vec![] } else { vec![bounded(MAggX::<Bls12381G1Impl>::new(prop, tier, seed), d), bounded(MAggX::<Bls12381G2Impl>::new(prop, tier, seed), d)] };
+    if prop == "C06" || prop == "C17" {
+        let d = if tier.thorough() { 6 } else { 5 };
+        v.push(bounded(MAggPattern::<Bls12381G1Impl>::new(prop, tier), d));
+        v.push(bounded(MAggPattern::<Bls12381G2Impl>::new(prop, tier), d));
+    }
     if prop == "C03" {
         v.push(bounded(MAggLarge::<Bls12381G1Impl>::new(prop, tier), 1));
         v.push(bounded(MAggLarge::<Bls12381G2Impl>::new(prop, tier), 1));
